@@ -35,6 +35,18 @@ def _trace_files():
             auditok.cmdline_util.__file__]
 
 
+def out_name(stem, fmt, naming):
+    """(file name, export_format argument) for a saver / joiner output in
+    format `fmt`: the explicit export_format, when given, decides."""
+    if naming == "explicit_other_ext":
+        return stem + ".dat", fmt
+    if naming == "explicit_no_ext":
+        return stem, fmt
+    if naming == "explicit_wrong_ext":
+        return stem + (".raw" if fmt == "wav" else ".wav"), fmt
+    return stem + "." + fmt, None
+
+
 def gen_sched(T, tier, n_hint=40):
     policy = T.weighted([(4, "random"), (2, "pct"), (2, "starve"), (1, "rr"),
                          (3, "burst")])
@@ -180,6 +192,11 @@ class Engine:
                 "fmt": T.choice(["wav", "raw"]),
                 "cache_blocks": T.choice([0, 0.5, 1, 3, 7, 100000]),
                 "timeout": T.choice(TIMEOUTS),
+                # how the format is conveyed: by extension; by an explicit
+                # export_format that disagrees with / replaces the extension
+                "naming": T.weighted([(5, "ext"), (1, "explicit_other_ext"),
+                                      (1, "explicit_no_ext"),
+                                      (1, "explicit_wrong_ext")]),
             }
         nobs = T.weighted([(2, 1), (3, 2), (2, 3), (1, 0), (1, 5)])
         obs = []
@@ -193,6 +210,9 @@ class Engine:
             o = {"kind": kind, "timeout": T.choice(TIMEOUTS)}
             if kind == "join":
                 o["fmt"] = T.choice(["wav", "raw"])
+                o["naming"] = T.weighted([(5, "ext"), (1, "explicit_other_ext"),
+                                          (1, "explicit_no_ext"),
+                                          (1, "explicit_wrong_ext")])
                 o["silence_samples"] = T.choice([0, 0.4, 1, 1.5, 0.6, 2.75,
                                                  3.5, 7, 100])
                 if n <= 12 and sw * ch <= 2 and T.draw(25) == 0:
@@ -225,6 +245,12 @@ class Engine:
         sc["stop"] = stop
         sc["logger"] = T.draw(4) == 0
         sc["slow_disk"] = T.draw(3) == 0
+        sc["stale_files"] = T.draw(3) == 0
+        # the program joins only the tokenizer and returns (as a script
+        # would): non-daemon observers still finish before the process exits
+        sc["join_only_tokenizer"] = (
+            prop == "C12" and saver is None and T.draw(5) == 0
+            and all(o["kind"] in ("rec", "print", "player") for o in obs))
         # an earlier, finished pipeline (with its own stream saver) of the
         # same process whose objects are garbage by now; collections are
         # injected so that its finalisers run in the middle of this run
@@ -307,10 +333,12 @@ class Engine:
         class RecObs(W.Worker):
             def __init__(self, timeout):
                 self.got = []
+                self.seqs = []
                 super().__init__(timeout=timeout)
 
             def _process_message(self, message):
                 self.got.append(message)
+                self.seqs.append(sim.seq)
 
         class FakeLogger:
             def __init__(self):
@@ -349,10 +377,21 @@ class Engine:
                     t = os.path.join(tmp, tmpls[o["tmpl"]] % k)
                     w = W.RegionSaverWorker(t, timeout=o["timeout"], **lkw)
                     w._v_tmpl = t
+                    if stop is None and sc.get("stale_files") and whole_E:
+                        # a file of the same name, longer, left by an
+                        # earlier run into this directory
+                        r0 = whole_E[len(whole_E) // 2]
+                        i0 = len(whole_E) // 2 + 1
+                        stale = t.format(id=i0, start=r0.start, end=r0.end,
+                                         duration=r0.duration)
+                        with open(stale, "wb") as f_:
+                            f_.write(b"\x7f" * (len(r0.data) * 3 + 64))
                 elif kind == "join":
-                    fn = os.path.join(tmp, "join%d.%s" % (k, o["fmt"]))
+                    nm, xf = out_name("join%d" % k, o["fmt"],
+                                      o.get("naming", "ext"))
+                    fn = os.path.join(tmp, nm)
                     sil = o["silence_samples"] / sr
-                    w = W.AudioEventsJoinerWorker(sil, fn, None, sr, sw, ch,
+                    w = W.AudioEventsJoinerWorker(sil, fn, xf, sr, sw, ch,
                                                   timeout=o["timeout"])
                     w._v_sil = sil
                     w._v_fn = fn
@@ -365,6 +404,15 @@ class Engine:
                                             timeout=o["timeout"], **lkw)
                 out.append(w)
             return out
+
+        whole_E = None
+        if stop is None and sc.get("stale_files") and any(
+                o["kind"] == "region" for o in sc["observers"]):
+            try:
+                whole_E = C.oracle_regions(data, sr, sw, ch, bd, params,
+                                           sc["max_read"])
+            except Exception:
+                whole_E = None
 
         def arm_stop():
             kind, j = stop["kind"], stop["j"]
@@ -444,9 +492,12 @@ class Engine:
             rd = reader
             if sc["saver"] is not None:
                 sv = sc["saver"]
-                fn = os.path.join(tmp, "stream." + sv["fmt"])
+                nm, xf = out_name("stream", sv["fmt"],
+                                  sv.get("naming", "ext"))
+                fn = os.path.join(tmp, nm)
                 saver = W.StreamSaverWorker(
-                    reader, fn, cache_size_sec=sv["cache_blocks"] * bsz / sr,
+                    reader, fn, export_format=xf,
+                    cache_size_sec=sv["cache_blocks"] * bsz / sr,
                     timeout=sv["timeout"])
                 res["saver_fn"] = fn
                 # record what the tokenizer sees through the saver
@@ -477,6 +528,10 @@ class Engine:
                 arm_stop()
             tok.start_all()
             sim.note("started")
+            if stop is None and sc.get("join_only_tokenizer"):
+                tok.join()
+                res["complete"] = True
+                return
             if stop is None:
                 tok.join()
                 for o in observers:
@@ -639,7 +694,13 @@ class Engine:
             for k, (o, od) in enumerate(zip(observers, sc["observers"])):
                 kind = od["kind"]
                 if kind == "rec":
-                    got = [C.region_key(m[0], m[1]) for m in o.got]
+                    st_o = o.__dict__.get("_sim_thread")
+                    msgs = o.got
+                    if st_o is not None and st_o.daemon:
+                        # a daemon thread dies with the process
+                        xs_ = sim.process_exit_seq()
+                        msgs = [m for m, q in zip(o.got, o.seqs) if q <= xs_]
+                    got = [C.region_key(m[0], m[1]) for m in msgs]
                     if got != exp:
                         return V(c_obs, "observer %d (rec) got ids %s, "
                                  "expected %s; first diff: %s" % (
@@ -652,8 +713,12 @@ class Engine:
                     want = ["P%d|%d|%s|%s|%s\n" % (k, i, f(r.start), f(r.end),
                                                    f(r.duration))
                             for i, r in enumerate(E, 1)]
-                    got = [ln for ln in seams.PRINTED
-                           if ln.startswith("P%d|" % k)]
+                    xs_ = sim.process_exit_seq()
+                    dr_ = sim.daemon_roles()
+                    got = [ln for ln, (q, role) in zip(seams.PRINTED,
+                                                       seams.PRINT_META)
+                           if ln.startswith("P%d|" % k)
+                           and not (role in dr_ and q > xs_)]
                     if got != want:
                         return V(c_obs, "print observer %d lines %r != %r" % (
                             k, got, want), c_obs + ":print")
